@@ -3,6 +3,7 @@
 #include <amgcl/solver/skyline_lu.hpp>
 #include <amgcl/detail/inverse.hpp>
 #include <amgcl/detail/qr.hpp>
+#include <functional>
 using hx::scalar; using hx::var; using hx::Pattern; using hx::SCrs;
 
 // skyline LU:  A * solve(f) == f  for all values for which the factorisation does not break down;
@@ -29,6 +30,12 @@ static void lu_case(const Pattern &p, bool allow_explicit_zeros, size_t max_path
     }, co);
 }
 
+// skyline LU with non-commuting 2x2 block values: A x = f blockwise
+static void lu_block_case(const Pattern &p) { hx::CaseOptions co; co.max_paths=40; co.max_depth=120; hx::run_case("skyline_lu/block2/"+p.name, [&]() { typedef amgcl::static_matrix<scalar,2,2> B2; typedef amgcl::static_matrix<scalar,2,1> V2; int n=p.n;
+    hx::Crs<B2> A; A.n=A.m=n; A.ptr=p.ptr; A.col=p.col; for (int i=0;i<n;++i) for (ptrdiff_t k=p.ptr[i];k<p.ptr[i+1];++k) { B2 b; int j=p.col[k]; for (int r=0;r<2;++r) for (int c2=0;c2<2;++c2) b(r,c2)=var("a_"+std::to_string(i)+"_"+std::to_string(j)+"_"+std::to_string(r)+std::to_string(c2), i==j ? (r==c2 ? 5.0+i+0.5*r : 0.75-0.5*c2) : (r==c2 ? -1.0-0.25*j : 0.5*(r-c2)*(1+i))); A.val.push_back(b); }
+    std::vector<V2> f(n), x(n); for (int i=0;i<n;++i) { V2 v; v(0)=var("f"+std::to_string(2*i),1.0+i); v(1)=var("f"+std::to_string(2*i+1),0.5-i); f[i]=v; }
+    try { amgcl::solver::skyline_lu<B2> S(std::tie(n,A.ptr,A.col,A.val)); S(f,x); } catch (const std::runtime_error&) { hx::count("zero-pivot exception paths"); return; }
+    std::vector<scalar> l, r; for (int i=0;i<n;++i) { V2 s=amgcl::math::zero<V2>(); for (ptrdiff_t k=p.ptr[i];k<p.ptr[i+1];++k) s+=A.val[k]*x[p.col[k]]; for (int q=0;q<2;++q) { l.push_back(s(q)); r.push_back(f[i](q)); } } hx::prove_eq_vec("skyline_lu with non-commuting 2x2 blocks: A x = f", l, r); },co); }
 static void inverse_case(int n) {
     hx::CaseOptions co; co.max_paths = n<=2 ? 64 : (hx::thorough()? 4000 : 600); co.max_depth=100;
     hx::run_case("inverse/n"+std::to_string(n), [&]() {
@@ -36,6 +43,9 @@ static void inverse_case(int n) {
         for (int i=0;i<n;++i) for (int j=0;j<n;++j) A[i*n+j]=var("a_"+std::to_string(i)+"_"+std::to_string(j), i==j ? 3.0+0.5*i : 0.5+0.25*((i*3+j)%4)*(((i+j)&1)?-1:1));
         A0=A;
         amgcl::detail::inverse(n,A.data(),t.data(),p.data());
+        { // determinant by cofactors: for a nonsingular block the pivot search must never leave a zero pivot
+          std::function<scalar(std::vector<std::vector<scalar>>)> det=[&](std::vector<std::vector<scalar>> M) { int m=M.size(); if (m==1) return M[0][0]; scalar d=0; for (int j=0;j<m;++j) { std::vector<std::vector<scalar>> S; for (int i=1;i<m;++i) { std::vector<scalar> r; for (int k=0;k<m;++k) if (k!=j) r.push_back(M[i][k]); S.push_back(r); } scalar cf=M[0][j]*det(S); d = (j%2)? d-cf : d+cf; } return d; };
+          std::vector<std::vector<scalar>> M0(n,std::vector<scalar>(n)); for (int i=0;i<n;++i) for (int j=0;j<n;++j) M0[i][j]=A0[i*n+j]; hx::no_breakdown("pivoted inverse: no zero pivot for a nonsingular block", hx::ne(det(M0),scalar(0))); }
         std::vector<scalar> prod, eye;
         for (int i=0;i<n;++i) for (int j=0;j<n;++j) { scalar s=0; for (int k=0;k<n;++k) s+=A0[i*n+k]*A[k*n+j]; prod.push_back(s); eye.push_back(scalar(i==j?1:0)); }
         hx::prove_eq_vec("A * inverse(A) = I", prod, eye);
@@ -110,7 +120,9 @@ template<int N> static void smat_inverse_case() {
     hx::CaseOptions co; co.max_paths = N<=2 ? 64 : (hx::thorough()? 4000 : 600); co.max_depth=100;
     hx::run_case("static_matrix_inverse/"+std::to_string(N), [&]() {
         typedef amgcl::static_matrix<scalar,N,N> M; M A; for (int i=0;i<N;++i) for (int j=0;j<N;++j) A(i,j)=var("a"+std::to_string(i)+std::to_string(j), i==j ? 0.25 : 1.0+0.5*((i+2*j)%3));   // hints force pivoting
-        M Ai=amgcl::math::inverse(A); M P=A*Ai; std::vector<scalar> got, eye; for (int i=0;i<N;++i) for (int j=0;j<N;++j) { got.push_back(P(i,j)); eye.push_back(scalar(i==j?1:0)); }
+        M Ai=amgcl::math::inverse(A);
+        { scalar d = N==2 ? A(0,0)*A(1,1)-A(0,1)*A(1,0) : A(0,0)*(A(1,1)*A(2,2)-A(1,2)*A(2,1)) - A(0,1)*(A(1,0)*A(2,2)-A(1,2)*A(2,0)) + A(0,2)*(A(1,0)*A(2,1)-A(1,1)*A(2,0)); hx::no_breakdown("static_matrix inverse: no zero pivot for a nonsingular block", hx::ne(d,scalar(0))); }
+        M P=A*Ai; std::vector<scalar> got, eye; for (int i=0;i<N;++i) for (int j=0;j<N;++j) { got.push_back(P(i,j)); eye.push_back(scalar(i==j?1:0)); }
         hx::prove_eq_vec("A * inverse(A) = I (static_matrix, pivoted)", got, eye);
     }, co);
 }
@@ -130,6 +142,7 @@ int main(int argc, char **argv) {
     for (int n=4;n<=(T?7:6);++n) { lu_case(hx::band_pattern(n,1),false,64); lu_case(hx::arrow_pattern(n),false,64); }
     lu_case(hx::band_pattern(5,2),false,64); lu_case(hx::grid_pattern(2,2),false,64); if (T) lu_case(hx::grid_pattern(3,2),false,64);
     for (int k=0;k<(T?20:6);++k) lu_case(hx::random_pattern(4+rng.below(2),4+0*rng.below(2),rng,1,true),false,64);
+    lu_block_case(hx::dense_pattern(2,2)); lu_block_case(hx::mask_pattern(2,2,0x2,true));
     for (int n=1;n<=3;++n) inverse_case(n);
     smat_case<1>(); smat_case<2>(); smat_case<3>(); if (T) smat_case<4>();
     smat_inverse_case<2>(); smat_inverse_case<3>();
